@@ -12,9 +12,15 @@ def run(ctx):
     g = ctx.tlc("NtpAcceptMC", "NtpAccept_gen1.cfg", workers=1, timeout=600, tag="gen1")
     cases = ctx.emitted(g["out"])
     rng = random.Random(ctx.seed)
+    # sequences of two crafted datagrams: random walks in quick, a sample of the
+    # complete enumeration in thorough
+    gs = ctx.tlc("NtpAcceptMC", "NtpAccept_gen2.cfg", workers=1, timeout=600, simulate="num=%d" % (500 if q else 3000),
+                 depth=8, tag="gen2sim")
+    two = [c for c in ctx.emitted(gs["out"]) if len(c["seen"]) + len(c["rest"]) >= 2]
     if q:
-        cases = rng.sample(cases, min(len(cases), 700))
+        cases = rng.sample(cases, min(len(cases), 600)) + two[:300]
     else:
+        cases += two
         g2 = ctx.tlc("NtpAcceptMC", "NtpAccept_gen2.cfg", workers=1, timeout=1200, tag="gen2")
         c2 = ctx.emitted(g2["out"])
         cases += rng.sample(c2, min(len(c2), 6000))
